@@ -723,3 +723,69 @@ package gomavlib
 //@   ensures  [endpoint-of-its-own-kind-bound-to-the-node] dynIs(ep, "*gomavlib.endpointUDPBroadcast") && ep.(*endpointUDPBroadcast).node == node && ep.(*endpointUDPBroadcast).conf == conf
 //@   ensures  [initialised-once] logLen() == 1 && logCallee(0, "(*gomavlib.endpointUDPBroadcast).initialize") && logArgIsPtr(0, 0, ep.(*endpointUDPBroadcast)) && err == logRetErr(0)
 //@   modifies ghost:log
+
+// ---------------------------------------------------------------- small accessors
+//@ func (*EventFrame).SystemID returns (id)
+//@   inline
+//@   requires res != nil && res.Frame != nil
+//@   ensures  id == res.Frame.GetSystemID()
+//@   modifies nothing
+
+//@ func (*EventFrame).ComponentID returns (id)
+//@   inline
+//@   requires res != nil && res.Frame != nil
+//@   ensures  id == res.Frame.GetComponentID()
+//@   modifies nothing
+
+//@ func (*EventFrame).Message returns (m)
+//@   inline
+//@   requires res != nil && res.Frame != nil
+//@   ensures  m == res.Frame.GetMessage()
+//@   modifies nothing
+
+//@ func (*Channel).Endpoint returns (e)
+//@   inline
+//@   requires ch != nil
+//@   ensures  e == ch.endpoint
+//@   modifies nothing
+
+//@ func (EndpointTCPServer).isUDP
+//@   inline
+//@   ensures  !res
+//@   modifies nothing
+
+//@ func (EndpointTCPServer).getAddress
+//@   inline
+//@   ensures  res == conf.Address
+//@   modifies nothing
+
+//@ func (EndpointUDPServer).isUDP
+//@   inline
+//@   ensures  res
+//@   modifies nothing
+
+//@ func (EndpointUDPServer).getAddress
+//@   inline
+//@   ensures  res == conf.Address
+//@   modifies nothing
+
+//@ func (EndpointTCPClient).isUDP
+//@   inline
+//@   ensures  !res
+//@   modifies nothing
+
+//@ func (EndpointTCPClient).getAddress
+//@   inline
+//@   ensures  res == conf.Address
+//@   modifies nothing
+
+//@ func (EndpointUDPClient).isUDP
+//@   inline
+//@   ensures  res
+//@   modifies nothing
+
+//@ func (EndpointUDPClient).getAddress
+//@   inline
+//@   ensures  res == conf.Address
+//@   modifies nothing
+
